@@ -154,6 +154,18 @@ impl ToLatex for CompoundVariable {
     }
 }
 
+/// `_`+ followed by letters or digits: the grammar's underscore_literal.
+fn is_underscore_literal(s: &str) -> bool {
+    let rest = s.trim_start_matches('_');
+    rest.len() < s.len() && !rest.is_empty() && rest.chars().all(char::is_alphanumeric)
+}
+
+/// A name that reads back as one identifier index: a letter followed by letters or digits.
+fn is_plain_index_name(s: &str) -> bool {
+    let rest = s.strip_prefix('$').unwrap_or(s);
+    rest.starts_with(char::is_alphabetic) && rest.chars().all(char::is_alphanumeric)
+}
+
 impl fmt::Display for CompoundVariable {
     fn fmt(&self, f: &mut fmt::Formatter<'_>) -> fmt::Result {
         let indexes = self
@@ -164,11 +176,16 @@ impl fmt::Display for CompoundVariable {
                     Primitive::Number(n) => n.to_string(),
                     Primitive::PositiveInteger(n) => n.to_string(),
                     Primitive::Integer(n) => n.to_string(),
-                    //literal name fragments such as the _2 in set_A__2
-                    Primitive::String(s) => s.clone(),
+                    //literal name fragments such as the _2 in set_A__2, any other
+                    //string is not a fragment the grammar reads back as a string
+                    Primitive::String(s) if is_underscore_literal(s) => s.clone(),
                     _ => format!("{{{}}}", i),
                 },
-                PreExp::Variable(name) => name.value().clone(),
+                //a name with underscores would be read back as several indexes (or
+                //as a literal fragment when it starts with one)
+                PreExp::Variable(name) if is_plain_index_name(name.value()) => {
+                    name.value().clone()
+                }
                 _ => format!("{{{}}}", i),
             })
             .collect::<Vec<String>>();
@@ -176,7 +193,8 @@ impl fmt::Display for CompoundVariable {
         //(`_{i}_j` written as `_i_j` is the name `_i` indexed by `j`)
         let mut indexes = indexes;
         if self.name.is_empty()
-            && let Some(PreExp::Variable(_)) = self.indexes.first()
+            && let Some(PreExp::Variable(name)) = self.indexes.first()
+            && is_plain_index_name(name.value())
         {
             indexes[0] = format!("{{{}}}", indexes[0]);
         }
